@@ -33,6 +33,10 @@ func c15(c *Ctx) {
 	noBreakFromHeaderLoops(c, "C15.all-header-lines", "parseExtensions")
 	r.Rule("C15.offer-owned", "the client's extension offer is the library's own: a caller-supplied Sec-WebSocket-Extensions request header is never copied (same rule as C14.request-shape), so the server cannot negotiate an extension the client will not act on")
 	c.borrow(c14, map[string]string{"C14.request-shape": "C15.offer-owned"})
+	r.Rule("C15.deflater-exclusive", "a compressor returned to its pool is forgotten in the same step on every path, so two connections never deflate through one flate.Writer (the peer could not decode the mixed stream; same rule as C02.deflater-exclusive)")
+	if c.poolTypestate("C15.deflater-exclusive", "(*flateWriteWrapper).Close") < 1 {
+		r.Fail("C15.deflater-exclusive", "(*flateWriteWrapper).Close", "pool-put-site", c.fn("(*flateWriteWrapper).Close").Pos(), "no Put of the deflater found")
+	}
 	r.Rule("C15.level-range", "Conn.compressionLevel is assigned only the default constant or a value that passed isValidCompressionLevel, whose bounds equal the index range of flateWriterPools; compressNoContextTakeover indexes the pools with level - minCompressionLevel")
 	r.Table("PreparedMessage.frame's private Conn sets only newCompressionWriter (it never reads): reviewed exception to C15.paired")
 
@@ -134,6 +138,7 @@ func (d *dialA) clientCompression(rule string) {
 	compW, compR := c.fn("compressNoContextTakeover"), c.fn("decompressNoContextTakeover")
 	parseExt := c.fn("parseExtensions")
 	errInv := c.P.Global("errInvalidCompression")
+	ecF := c.P.Field("Dialer", "EnableCompression")
 	tupT := d.readResp.Type().(*types.Tuple)
 	ok, why := true, "compression adopted only for permessage-deflate with both parameters; partial replies refused"
 	nOn, nRefuse, nOff := 0, 0, 0
@@ -188,6 +193,32 @@ func (d *dialA) clientCompression(rule string) {
 		}
 		if wSet != rSet {
 			ok, why = false, "the client installs only one of the two compression functions"
+		}
+		// the decision follows the reply alone: the server decided from the request it received, whatever this
+		// Dialer's own setting says (an offer can reach the server through a caller-supplied header).  A path
+		// that returns a connection without compression after branching on Dialer.EnableCompression must
+		// still know that the extension it skipped was not permessage-deflate.
+		if !p.Results[0].IsNil() && !wSet {
+			tokenFalse := hasLit(p, len(p.Lits), false, func(t *core.Term) bool {
+				if t.Kind != core.KEq || t.Args[0].Kind != core.KLookup {
+					return false
+				}
+				k, isK := t.Args[0].Args[1].StrVal()
+				sv, isS := t.Args[1].StrVal()
+				return isK && k == "" && isS && sv == "permessage-deflate" && isExt(t.Args[0].Args[0])
+			})
+			for _, l := range p.Lits {
+				mentions := false
+				l.T.Walk(func(t *core.Term) bool {
+					if _, is := fieldLoad(t, ecF); is {
+						mentions = true
+					}
+					return !mentions
+				})
+				if mentions && !tokenFalse {
+					ok, why = false, "after the reply was read, DialContext branches on Dialer.EnableCompression ("+l.T.String()+") and returns a connection without compression without having looked at the extension: a reply announcing permessage-deflate is ignored while the server compresses"
+				}
+			}
 		}
 		conn := p.Results[0]
 		if wSet || rSet {
